@@ -255,6 +255,52 @@ def gen_segmentation(rng, span, nmax=6, labels="abcd", lat=8, start=Fr(0)):
     return ivs, labs
 
 
+def punch(rng, ivs, labs, lat=8):
+    """a contiguous labelled segmentation made NON-contiguous, still valid for segment.validate_structure /
+    hierarchy.validate_hier_intervals (which look at the first start, the last end and the durations only): an interior
+    segment dropped, or a segment's end pulled back (the frames in the gap carry no label at all), or a segment's end
+    pushed past the next start (overlap: the later row wins).  Rows stay sorted by start; the first start and the
+    largest end are kept.  -> (ivs, labs, kind) with kind in {"gap", "overlap", None (too short to change)}"""
+    ivs, labs = [list(iv) for iv in ivs], list(labs)
+    n = len(ivs)
+    step = Fr(1, lat)
+    u = rng.random()
+    if n >= 3 and u < 0.35:
+        k = rng.randint(1, n - 2)
+        del ivs[k], labs[k]
+        return ivs, labs, "gap"
+    if n >= 2 and u < 0.8:
+        cand = [k for k in range(n - 1) if ivs[k][1] - ivs[k][0] > step]
+        if cand:
+            k = rng.choice(cand)
+            room = int((ivs[k][1] - ivs[k][0]) / step) - 1
+            ivs[k][1] -= step * rng.randint(1, min(room, rng.choice([1, 2, 4, 16])))
+            return ivs, labs, "gap"
+    if n >= 2:
+        k = rng.randint(0, n - 2)
+        room = int((ivs[-1][1] - ivs[k][1]) / step)
+        if room >= 1:
+            ivs[k][1] += step * rng.randint(1, min(room, rng.choice([1, 2, 4, 16])))
+            return ivs, labs, "overlap"
+    return ivs, labs, None
+
+
+def rename_targets(rng, names, prefix):
+    """new label names for the sorted list `names` (distinct modulo case, never reading like a missing label): random
+    fresh names, names that differ only under a stronger folding than str.lower(), or fresh names that sort in exactly
+    the REVERSE order of the old ones (whatever is attached to 'the first / the last class' changes owner)"""
+    u = rng.random()
+    if u < 0.3 and len(names) <= len(FOLD_TWINS):
+        new = list(FOLD_TWINS[:len(names)])
+        rng.shuffle(new)
+        return new
+    if u < 0.55 and 2 <= len(names) <= 100:
+        return ["%s%03d" % (prefix, 999 - 7 * i - rng.randint(0, 6)) for i in range(len(names))]
+    new = ["%s%d_%d" % (prefix, rng.randint(0, 99), i) for i in range(len(names))]   # distinct also modulo case
+    rng.shuffle(new)
+    return new
+
+
 def sv(ivs):
     return [[S(a), S(b)] for a, b in ivs]
 
@@ -304,6 +350,17 @@ class Segment(Task):
             ei, el = gen_segmentation(rng, span + Fr(rng.choice([-1, 1, 2])), labels=ealpha)  # other duration
         else:
             ei, el = gen_segmentation(rng, span, labels=ealpha)
+        if rng.random() < 0.25:
+            # valid for the structure metrics without being a partition of the time line: interior gaps (frames without
+            # any label) and overlaps, on either side
+            sides = rng.choice(["ref", "est", "both"])
+            if sides != "est":
+                ri, rl, kind = punch(rng, ri, rl)
+                if kind == "gap" and rng.random() < 0.1:
+                    # a label SPELLED like the missing label (known finding segment_none_label_with_unlabelled_frames)
+                    rl[rng.randrange(len(rl))] = rng.choice(["None", "none", "NONE"])
+            if sides != "ref" and ei:
+                ei, el, _ = punch(rng, ei, el)
         return {"ref": [sv(ri), rl], "est": [sv(ei), el]}
 
     def swap(self, inp):
@@ -375,11 +432,7 @@ class Segment(Task):
             ivs, labs = inp[side]
             # label identity is identity modulo case (util.index_labels, case_sensitive=False)
             names = sorted(set(x.lower() for x in labs))
-            new = ["L%d_%d" % (rng.randint(0, 99), i) for i in range(len(names))]   # distinct also modulo case
-            if len(names) <= len(FOLD_TWINS) and rng.random() < 0.3:
-                new = list(FOLD_TWINS[:len(names)])
-            rng.shuffle(new)
-            m = dict(zip(names, new))
+            m = dict(zip(names, rename_targets(rng, names, "L")))
             out[side] = [ivs, [m[x.lower()] for x in labs]]
         return out
 
@@ -401,8 +454,11 @@ class Hierarchy(Task):
     def _hier(self, rng, span, labels):
         levels = rng.randint(1, 3)
         out_i, out_l = [], []
+        holes = rng.random() < 0.12      # levels that leave part of the time line uncovered / cover a part twice
         for k in range(levels):
             ivs, labs = gen_segmentation(rng, span, nmax=2 + 2 * k, labels=labels, lat=2)
+            if holes and rng.random() < 0.7:
+                ivs, labs, _ = punch(rng, ivs, labs, lat=2)
             out_i.append(sv(ivs))
             out_l.append(labs)
         return [out_i, out_l]
@@ -452,11 +508,7 @@ class Hierarchy(Task):
         for side in ("ref", "est"):
             ivs, labs = inp[side]
             names = sorted({x.lower() for lv in labs for x in lv})
-            new = ["N%d_%d" % (rng.randint(0, 99), i) for i in range(len(names))]   # distinct also modulo case
-            if len(names) <= len(FOLD_TWINS) and rng.random() < 0.3:
-                new = list(FOLD_TWINS[:len(names)])
-            rng.shuffle(new)
-            m = dict(zip(names, new))
+            m = dict(zip(names, rename_targets(rng, names, "N")))
             out[side] = [ivs, [[m[x.lower()] for x in lv] for lv in labs]]
         return out
 
